@@ -87,6 +87,18 @@ class Report:
         unless another rule found a definite violation."""
         self.deferred.append("%s: %s" % (self.pid, msg))
 
+    def guard(self, fn, *args, **kw):
+        """run one independent group of rules; an engine error there is reported as inconclusive for that group only,
+        so that the other groups still deliver their (definite) verdicts"""
+        try:
+            return fn(*args, **kw)
+        except Exception as e:          # AnalysisBroken included
+            import traceback
+            tb = traceback.extract_tb(e.__traceback__)[-1]
+            self.deferred.append("%s: %s failed: %s: %s (%s:%s)" % (self.pid, getattr(fn, "__name__", "group"),
+                                                                     type(e).__name__, str(e)[:200], tb.filename.split("/")[-1], tb.lineno))
+            return None
+
     # -- finish -------------------------------------------------------------
     def finish(self, broken=None):
         wall = time.time() - self.t0
@@ -157,9 +169,12 @@ class Report:
             print("  %-6s %3d/%-3d %s" % (rid, r["discharged"], r["obligations"], r["text"]))
         for k in self.known_hit:
             print("KNOWN-FINDING: property=%s %s at %s: %s" % (self.pid, k["key"], k["where"], k["message"]))
-        if broken:
+        if broken and not self.violations:
             print("INCONCLUSIVE property=%s: %s" % (self.pid, broken))
             return 2
+        if broken:
+            # a definite violation found before / besides the part that could not be analysed stands on its own
+            print("NOTE property=%s: part of the analysis was inconclusive (%s)" % (self.pid, broken[:300]))
         if self.violations:
             rdir = os.path.join(VERIF, "evidence", "replay") if not no_ev else \
                 os.path.join(os.environ.get("GM2_CACHE") or "/tmp", "replay")
